@@ -1,5 +1,6 @@
 use crate::engine::core::Check;
 
+pub mod c01;
 pub mod c02;
 pub mod c03;
 pub mod c04;
@@ -9,7 +10,7 @@ pub mod c09;
 pub mod c13;
 
 pub fn all() -> Vec<&'static dyn Check> {
-    vec![&c02::C02, &c03::C03, &c04::C04, &c05::C05, &c06::C06, &c09::C09, &c13::C13]
+    vec![&c01::C01, &c02::C02, &c03::C03, &c04::C04, &c05::C05, &c06::C06, &c09::C09, &c13::C13]
 }
 
 pub fn find(id: &str) -> Option<&'static dyn Check> {
